@@ -93,6 +93,24 @@ func (f *ReplayFilter) TestAndSet(now time.Time, buf []byte) bool {
 	f.Lock()
 	defer f.Unlock()
 
+	return f.testAndSetLocked(now, digest)
+}
+
+// TestAndSetNow is TestAndSet with the current time, which is sampled while
+// holding the filter's lock.  Concurrent callers that sample the time on
+// their own before calling TestAndSet can acquire the lock in the opposite
+// order, and a timestamp older than every entry in the filter is treated as
+// the clock having jumped backwards, which jettisons the entire filter.
+func (f *ReplayFilter) TestAndSetNow(buf []byte) bool {
+	digest := siphash.Hash(f.key[0], f.key[1], buf)
+
+	f.Lock()
+	defer f.Unlock()
+
+	return f.testAndSetLocked(time.Now(), digest)
+}
+
+func (f *ReplayFilter) testAndSetLocked(now time.Time, digest uint64) bool {
 	f.compactFilter(now)
 
 	if e := f.filter[digest]; e != nil {
